@@ -234,6 +234,9 @@ pub fn prop(tier: Tier, seed: u64) -> Prop {
             masks.extend(all_masks(n_in as usize, 3));
         }
         ctx.sample(|| json!({"n_in": n_in, "n_out": n_out, "crop": [crop.start, crop.len], "alg": format!("{:?}", alg), "alpha_masks": masks.len(), "hidden_colour_variants": ["0", "max", "0x55..", "lcg"]}));
+        if ctx.describe_only {
+            return;
+        }
         for (pi, pt) in ALPHA_PT.iter().copied().enumerate() {
             for (bi, &be) in b1.iter().enumerate() {
                 // all back-ends for small n_in, rotating above (cost)
@@ -260,7 +263,7 @@ pub fn prop(tier: Tier, seed: u64) -> Prop {
             }
         }
         ctx.nontrivial += masks.len() as u64;
-    }));
+    }).isolated());
 
     // ---- cropped down-scales: the crop leaves many source pixels on both sides, and the kernel
     //      (radius = support x scale) reaches beyond the crop box into them
@@ -276,6 +279,9 @@ pub fn prop(tier: Tier, seed: u64) -> Prop {
         let alg = a3[d[2]];
         let crop = Crop1 { start: start as f64, len: len as f64 };
         ctx.sample(|| json!({"n_in": n_in, "crop": [start, len], "n_out": n_out, "alg": format!("{:?}", alg)}));
+        if ctx.describe_only {
+            return;
+        }
         // structured masks over n_in positions
         let masks: Vec<Vec<u8>> = (0..24usize).map(|k| (0..n_in as usize).map(|i| match k % 6 { 0 => if (i + k / 6) % 2 == 0 { 0 } else { 2 }, 1 => if i == (k * 5) % n_in as usize { 0 } else { 2 }, 2 => if i < (k / 6 + 1) * 3 { 0 } else { 2 }, 3 => if i >= n_in as usize - (k / 6 + 1) * 3 { 0 } else { 2 }, 4 => [0u8, 1, 2][(i + k) % 3], _ => 2 }).collect()).collect();
         for (pi, pt) in ALPHA_PT.iter().copied().enumerate() {
@@ -301,7 +307,7 @@ pub fn prop(tier: Tier, seed: u64) -> Prop {
             ctx.class(mix(mix(pt.idx() as u64 + 80, be as u64), mix(d[0] as u64, d[1] as u64 * 8 + d[2] as u64)));
         }
         ctx.nontrivial += masks.len() as u64;
-    }));
+    }).isolated());
 
     // ---- 2-D incl. SuperSampling
     let m: u32 = tier.pick(3, 4);
@@ -339,6 +345,9 @@ pub fn prop(tier: Tier, seed: u64) -> Prop {
             v
         };
         ctx.sample(|| json!({"src": [sw, sh], "dst": [dw, dh], "alg": format!("{:?}", alg), "crop": d[2] == 1, "alpha_masks": masks.len()}));
+        if ctx.describe_only {
+            return;
+        }
         let mut o = Opts::new(alg);
         o.cx = cx;
         o.cy = cy;
@@ -352,7 +361,7 @@ pub fn prop(tier: Tier, seed: u64) -> Prop {
             ctx.class(mix(mix(pt.idx() as u64 + 40, be as u64), mix(d[1] as u64, d[0] as u64 % 32)));
         }
         ctx.nontrivial += masks.len() as u64;
-    }));
+    }).isolated());
 
     p.rule = "1-D: every (n_in,n_out) up to N x crop sub-alphabet x 14 algorithms x 6 alpha pixel types x back-ends x both orientations, with EVERY alpha mask over {0,max}^n_in (and {0,mid,max}^n_in for n_in <= N3) as the lines of one image and 4 colour assignments under the transparent pixels (0, max, 0x55.., lcg); 2-D: shapes x 20 algorithms incl. SuperSampling x crop with all masks (<= 8 pixels) or 48 structured masks. Oracles: the four variants give identical results; alpha 0 in the destination implies colour 0; the alpha channel equals the one-channel resize of the alpha plane; an opaque source gives the use_alpha(false) result".into();
     p.bounds = json!({"N": nmax, "N3": n3, "M": m});
